@@ -227,3 +227,38 @@ def check_byte_param_casts(rep, unit, fns, rule="R-TBAA"):
                 rep.violated(rule, fn, inst, desc, "cast to plain %s * at line %s: when the caller's block is a uint64_t, a struct or an array of another "
                              "type, gcc -O2 may keep using its own copy (in-place encryption returns the plaintext)" % (to.get("s"), x.get("ln")), x.get("ln"))
     return n
+
+
+
+def check_alias_dropped(rep, unit, fns, rule="R-TBAA"):
+    """a pointer to a may_alias word (made from the caller's bytes) handed to a parameter declared as pointer to the plain
+    type: the callee's accesses are ordinary typed accesses again, the attribute is lost at the call"""
+    n = 0
+    for fn in fns:
+        if not fn.has_cfg:
+            continue
+        for pos, root, c, ps in fn.calls():
+            callee = unit.fn(c.get("fn")) if c.get("fn") else None
+            if callee is None:
+                continue
+            for i, a in enumerate(c["args"]):
+                if i >= len(callee.params):
+                    break
+                a0 = core.strip_imp(a)
+                if "t" not in a0:
+                    continue
+                ta = unit.type(a0["t"])
+                tp_ = unit.type(callee.params[i]["t"])
+                if ta["k"] != "ptr" or tp_["k"] != "ptr":
+                    continue
+                ea, ep = unit.type(ta["to"]), unit.type(tp_["to"])
+                if ea["k"] == "int" and ep["k"] == "int" and ea.get("ma") and (ea.get("size") or 1) > 1:
+                    n += 1
+                    rep.functions.add(fn.name)
+                    desc = "%s: the may_alias word pointer passed to %s() keeps the attribute in the parameter type" % (fn.name, callee.name)
+                    if ep.get("ma"):
+                        rep.proved(rule, fn, "alias-kept:%s#%d" % (callee.name, i), desc, "", c.get("ln"))
+                    else:
+                        rep.violated(rule, fn, "alias-kept:%s#%d" % (callee.name, i), desc, "parameter %d of %s is a plain %s *: the stores through it are not seen as "
+                                     "modifying the caller's object (gcc -O2, in-place encryption of a uint64_t block)" % (i, callee.name, ep.get("s")), c.get("ln"))
+    return n
